@@ -34,25 +34,25 @@ Qed.
 Definition fixed_session (nr nu : nat) : session := mkSession Fx nr nu.
 
 (* after ANY two histories, two writings of an annotation that differ in
-   sibling order get the same multiset of issues (repaired code) *)
+   sibling order get the same multiset of issues (the code as it is) *)
 Lemma history_order_invariant nr nu h h' top top' :
-  PermForest top top' -> forallb wft top = true -> forallb noempty_t top = true ->
+  PermForest top top' -> forallb wft top = true ->
   exists l l',
     nth (length h) (snd (session_run (fixed_session nr nu) (h ++ [top]))) (Exn Unmodelled) = Ok l /\
     nth (length h') (snd (session_run (fixed_session nr nu) (h' ++ [top']))) (Exn Unmodelled) = Ok l' /\
     Permutation l l'.
 Proof.
-  intros Hp Hw Hn. rewrite !history_independent. unfold verdict, fixed_session. cbn [s_mode s_nreq s_nuniq].
+  intros Hp Hw. rewrite !history_independent. unfold verdict, fixed_session. cbn [s_mode s_nreq s_nuniq].
   apply group_checks_perm_fixed; assumption.
 Qed.
 
 (* ... and two respellings get the same list *)
 Lemma history_spelling_invariant nr nu h h' top top' :
-  Respell top top' -> forallb wft top = true -> forallb noempty_t top = true ->
+  Respell top top' -> forallb wft top = true ->
   exists l,
     nth (length h) (snd (session_run (fixed_session nr nu) (h ++ [top]))) (Exn Unmodelled) = Ok l /\
     nth (length h') (snd (session_run (fixed_session nr nu) (h' ++ [top']))) (Exn Unmodelled) = Ok l.
 Proof.
-  intros Hr Hw Hn. rewrite !history_independent. unfold verdict, fixed_session. cbn [s_mode s_nreq s_nuniq].
+  intros Hr Hw. rewrite !history_independent. unfold verdict, fixed_session. cbn [s_mode s_nreq s_nuniq].
   apply group_checks_respell_fixed; assumption.
 Qed.
